@@ -836,7 +836,14 @@ func lenBound(base ssa.Value, b *ssa.BasicBlock, d int) (int64, bool) {
 	}
 	switch t := base.(type) {
 	case *ssa.MakeSlice:
-		return constInt(t.Len)
+		if k, ok := constInt(t.Len); ok {
+			return k, true
+		}
+		// make([]T, len(x)): as long as x
+		if lc, ok := t.Len.(*ssa.Call); ok && builtinName(lc) == "len" {
+			return lenBound(lc.Call.Args[0], b, d+1)
+		}
+		return 0, false
 	case *ssa.Slice:
 		// make([]T, n) with constant n is lowered to new [n]T; slice [:n]
 		if arr, ok := deref(t.X.Type()).Underlying().(*types.Array); ok {
